@@ -708,6 +708,8 @@ func oracleReplay(e *Engine, o *Obligation, dir string) (bool, string) {
 		"(*sliceList).pushBack", "(*sliceList).popFront", "(*sliceList).front", "(*sliceList).back",
 		"(*linkedBuffer).recycle", "(*linkedBuffer).clean", "(*bufferManager).recycleBuffers", "(*bufferSlice).update", "(*bufferManager).readBufferSlice":
 		which = "buf"
+	case "(*Session).OpenStream":
+		return scheduleReplay(e, []string{"F13", "F14"})
 	default:
 		return false, ""
 	}
@@ -770,4 +772,32 @@ func oracleReplay(e *Engine, o *Obligation, dir string) (bool, string) {
 	}
 	oracleCache[which] = [2]string{v, detail}
 	return ok, detail
+}
+
+// scheduleReplay runs the recorded schedules of repaired findings (findings/<F>/run.sh, next to the engine's
+// parent directory) against the tree under check: a schedule that fails again is a concrete failing history.
+func scheduleReplay(e *Engine, ids []string) (bool, string) {
+	exe, err := os.Executable()
+	if err != nil {
+		return false, ""
+	}
+	root := filepath.Dir(filepath.Dir(exe))
+	detail := ""
+	found := false
+	for _, id := range ids {
+		script := filepath.Join(root, "findings", id, "run.sh")
+		if _, err := os.Stat(script); err != nil {
+			continue
+		}
+		cmd := exec.Command(script, e.repo)
+		out, _ := cmd.CombinedOutput()
+		txt := string(out)
+		if strings.Contains(txt, id+": ") && strings.Contains(txt, "--- FAIL") {
+			found = true
+			detail += "recorded schedule " + id + " fails on this tree (" + script + "):\n" + txt + "\n"
+		} else {
+			detail += "recorded schedule " + id + " does not fail on this tree\n"
+		}
+	}
+	return found, detail
 }
